@@ -61,6 +61,7 @@ DefStream ==
      parent |-> 0,          \* stream on which this stream was promised (PUSH_PROMISE received)
      pushHold |-> FALSE,    \* the application holds a PushPromises handle of this stream
      blocksIn |-> 0, infoIn |-> 0,   \* complete header blocks received / of which informational (1xx) responses
+     inSinceDrop |-> 0,       \* frames handed to E since the application's latest handle drop on this stream
      inSince |-> 0, inNeed |-> 2]  \* frames handed to E since the cause of a reset (the application's call, else the stream's
                             \* first frame); >= inNeed of them means some raced with E's RST_STREAM still sitting in its codec
 
@@ -145,6 +146,8 @@ OutLife(m, f, l) ==
                         THEN "stream_closed_for_late_frame_on_forgotten_stream"
                         ELSE IF ty = "RST_STREAM" /\ f.ch = 0 /\ f.cl = STREAM_CLOSED /\ x.resR /\ ~x.surfaced /\ x.inAny
                         THEN "stream_closed_for_peer_frame_on_a_cancelled_promised_stream_whose_reset_was_still_queued"
+                        ELSE IF ty = "RST_STREAM" /\ f.ch = 0 /\ f.cl = STREAM_CLOSED /\ x.want = "" /\ x.sendDrop /\ x.recvDrop /\ x.inSinceDrop > 0
+                        THEN "stream_closed_for_peer_frame_on_an_implicitly_cancelled_stream_whose_reset_was_still_queued"
                         ELSE ty)
               ELSE IF x.o = "es"
               THEN Check(m3, "C04.after_es", ty \in {"WINDOW_UPDATE", "RST_STREAM"}, l, s, ty)
@@ -441,7 +444,7 @@ StepQf(m, e, l) ==
 StepIn(m, f, l) ==
     LET s  == f.sid
         x0 == S(m, s)
-        x  == [x0 EXCEPT !.inAny = TRUE, !.inSince = x0.inSince + 1,
+        x  == [x0 EXCEPT !.inAny = TRUE, !.inSince = x0.inSince + 1, !.inSinceDrop = x0.inSinceDrop + 1,
                          !.hdrsIn = x0.hdrsIn + (IF f.ty = "HEADERS" THEN 1 ELSE 0),
                          !.peerBad = x0.peerBad \/ (x0.i = "rst" /\ f.ty \in {"DATA", "HEADERS", "CONTINUATION", "PUSH_PROMISE"}),
                          !.inAfterRst = x0.inAfterRst \/ (x0.rstOut > 0 /\ f.ty \in {"DATA", "HEADERS", "CONTINUATION", "WINDOW_UPDATE"})]
@@ -562,11 +565,11 @@ StepApi(m, e, l) ==
     ELSE IF c \in {"poll_data", "poll_trailers", "poll_response"} /\ e.res = "err"
     THEN SetS(m, s, [x EXCEPT !.rdead = TRUE])
     ELSE IF c = "drop_recv"
-    THEN SetS(m, s, [x EXCEPT !.recvDrop = TRUE, !.rdead = TRUE])
+    THEN SetS(m, s, [x EXCEPT !.recvDrop = TRUE, !.rdead = TRUE, !.inSinceDrop = 0])
     ELSE IF c = "drop_resp"
-    THEN SetS(m, s, [x EXCEPT !.respDrop = TRUE, !.rdead = TRUE, !.recvDrop = TRUE])
+    THEN SetS(m, s, [x EXCEPT !.respDrop = TRUE, !.rdead = TRUE, !.recvDrop = TRUE, !.inSinceDrop = 0])
     ELSE IF c = "drop_send"
-    THEN SetS(m, s, [x EXCEPT !.sendDrop = TRUE])
+    THEN SetS(m, s, [x EXCEPT !.sendDrop = TRUE, !.inSinceDrop = 0])
     ELSE IF c = "hold_push" THEN SetS(m, s, [x EXCEPT !.pushHold = TRUE])
     ELSE IF c = "drop_push" THEN SetS(m, s, [x EXCEPT !.pushHold = FALSE])
     ELSE IF c = "set_target_window" THEN [m EXCEPT !.maxTarget = Max(m.maxTarget, e.v)]
